@@ -372,11 +372,14 @@ def check(argv):
     tier, seed = env_tier_seed(argv)
     report = Report("C12", tier, seed, "other", f"./vt check C12 --tier {tier}")
     kind_a(report)
+    from contracts import deparse
+
+    deparse.run(report)
     kind_c(report, tier, seed)
     report.assumptions = ["parsita implements the combinators as documented (T4); CPython's recursion limit on deeply nested input is not modelled (F7b: ~3000 nested parentheses raise RecursionError)",
                           "the independent renderer of checks/c12.py is the 'conventional meaning': * over + and -, left associative, parentheses override"]
     report.trusted.append("parsita combinator semantics (T4)")
-    return report.finish(explanation="Kind A: make_expression's loop body is the left-fold step for both operators the grammar yields (read from the real AST); Format.__post_init__'s "
+    return report.finish(explanation="Kind A: every expression deparse method (Integer, Float, Tensor, Add, Subtract, Multiply) is symbolically executed from its real source: the text it builds from its children's texts, read with the conventional grammar, denotes exactly the tree (children known only through the same contract). Kind A: make_expression's loop body is the left-fold step for both operators the grammar yields (read from the real AST); Format.__post_init__'s "
                          "test is equivalent to 'ordering is a permutation' for equal lengths. Kind C: round trips, conventional meaning, typed rejections and totality on "
                          "enumerated trees, random/mutated strings and every format of order <= 4.")
 
